@@ -112,6 +112,13 @@ enum Lookup {
 
 impl Model {
     fn canon(&self, now: u64, ttl: Option<u64>) -> String {
+        self.canon_with(now, ttl, &|s| s)
+    }
+    /// `rank`: how a stored serial is rendered (the dedup key of the history search renders it
+    /// as its rank among all serials of the candidate set: only equality of serials matters to
+    /// what can happen next, their absolute values depend on how many inner calls - also
+    /// failed ones - happened before)
+    fn canon_with(&self, now: u64, ttl: Option<u64>, rank: &dyn Fn(u32) -> u32) -> String {
         // relative ages (capped beyond the TTL) and rank-normalised stamps
         let mut es = self.entries.clone();
         es.sort_by_key(|e| e.stamp);
@@ -123,7 +130,7 @@ impl Model {
                     Some(t) => age.min(t + 1),
                     None => 0,
                 };
-                format!("k{}s{}a{}f{}", e.key, e.serial, age, e.freq)
+                format!("k{}s{}a{}f{}", e.key, rank(e.serial), age, e.freq)
             })
             .collect();
         format!("{}|x{}e{}o{}k{}", v.join(","), self.expiries, self.evictions, self.overwrites, self.expired_keys)
@@ -330,7 +337,11 @@ impl SeqScenario for C10 {
         let all: Vec<usize> = hist.iter().copied().chain(probe_ops).collect();
         let mut key_at_end: Option<String> = None;
         let canon_of = |cands: &Vec<Model>, now: u64| -> String {
-            let mut cs: Vec<String> = cands.iter().map(|c| c.canon(now, cfg.ttl)).collect();
+            let mut serials: Vec<u32> = cands.iter().flat_map(|c| c.entries.iter().map(|e| e.serial)).collect();
+            serials.sort();
+            serials.dedup();
+            let rank = |s: u32| serials.iter().position(|x| *x == s).unwrap_or(0) as u32;
+            let mut cs: Vec<String> = cands.iter().map(|c| c.canon_with(now, cfg.ttl, &rank)).collect();
             cs.sort();
             cs.dedup();
             format!("{cs:?}")
@@ -846,7 +857,10 @@ fn main() {
     if tier == Tier::Thorough {
         let mut scratch = Report::new("C10", tier, "model_checking");
         let mut mismatches = 0;
-        let few: Vec<&C10> = scns.iter().step_by(5).collect();
+        // (not for LFU with room for two entries: its victim among equal counts follows HashMap
+        // iteration order, so the set-valued reference - and with it the keys reached - differs
+        // between two executions of one history; every execution there stands alone)
+        let few: Vec<&C10> = scns.iter().step_by(5).filter(|s| !(matches!(s.cfg.policy, EvictionPolicy::Lfu) && s.cfg.max_size >= 2)).collect();
         for s in few.iter() {
             let nd = seq::explore_seq(*s, 4, false, &mut scratch);
             let dd = seq::explore_seq(*s, 4, true, &mut scratch);
